@@ -347,6 +347,10 @@ class GroupContainer(FixSerializable):
         bytes_ = bytes_[end:]
         while len(bytes_) != 0 and len(deserialized) < count.value:
             end, group = cls.GroupCls.from_bytes(bytes_)
+            if end == 0:
+                # what follows is not an instance of this group: fewer instances than announced
+                # (reported below) - going on would add one empty instance per announced count
+                break
             bytes_ = bytes_[end:]
             deserialized.append(group)
             count_deserialized += end
